@@ -36,6 +36,11 @@ def gen_dense(rng, tier):
                 v = rng.randrange(0, size + 2)
                 alpha = rng.randrange(-3, 6)
                 out.append("dense %d %d %d %d %d %d" % (L, nrow, ncol, r0, v, alpha))
+        for nrow in rng.sample(BIG_COUNTS, 3):
+            ncol = rng.randrange(1, 7)
+            size = (nrow * ncol) if L == 0 else (-(-nrow // L) * L * ncol)
+            out.append("dense %d %d %d %d %d %d" % (L, nrow, ncol, rng.randrange(0, nrow), rng.randrange(0, size + 2),
+                                                    rng.randrange(-3, 6)))
     return out
 
 
@@ -77,6 +82,8 @@ def gen_sparse(rng, tier):
         pat = [(r, c) for r in range(n) for c in range(n) if rng.random() < dens or (r == c and rng.random() < 0.7)]
         L = rng.randrange(0, 5)
         nb = rng.randrange(1, (2 * L + 2) if L else 4)
+        if rng.random() < 0.1:
+            nb = rng.choice(BIG_COUNTS)
         out.append(_pattern_line(rng, rng.randrange(2), L, n, nb, pat))
     return out
 
@@ -142,7 +149,13 @@ def mech_tokens(vmap, rxns):
     return t
 
 
+BIG_COUNTS = [8, 9, 15, 16, 17, 24, 31, 32, 33, 40]
+
+
 def _cells(rng, L):
+    # mostly small counts (every residue modulo L); one case in ten uses a count beyond any small batch size
+    if rng.random() < 0.1:
+        return rng.choice(BIG_COUNTS)
     if L == 0:
         return rng.randrange(1, 5)
     return rng.choice(list(range(1, 3 * L + 2)))
@@ -224,6 +237,8 @@ def _lu_line(rng, fam, alg, n, offdiag, solve):
     csc = rng.randrange(2)
     L = rng.randrange(0, 5)
     nb = rng.randrange(1, (2 * L + 2) if L else 4)
+    if rng.random() < 0.1:
+        nb = rng.choice(BIG_COUNTS)
     pairs = sorted(set([(i, i) for i in range(n)] + list(offdiag)))
     small = rng.random() < 0.2
     vals = [rng.randrange(1, 10 if small else P31) for _ in range(nb * len(pairs))]
@@ -288,6 +303,8 @@ def _ros_line(rng, word, tier, inplace=None, L=None, stages=None):
     inplace = rng.randrange(2) if inplace is None else inplace
     L = rng.randrange(0, 5) if L is None else L
     ncells = rng.randrange(1, (2 * L + 2) if L else 4)
+    if rng.random() < 0.05:
+        ncells = rng.choice(BIG_COUNTS[:6])
     nspec = rng.randrange(1, 4)
     stages = rng.choice([1, 2, 2, 2, 3, 3, 4, 6]) if stages is None else stages
     newf = [1] + [rng.randrange(2) for _ in range(5)]
@@ -509,6 +526,20 @@ def solver_problem_tokens(rng, ns, rxns, ncells, kind, special=False, clamp=1, s
     else:
         y0 = [rng.choice([0.0, 1.0, 0.5, 1e-3, 2.0, 10.0]) * rng.random() for _ in range(ncells * ns)]
         k = [10 ** rng.uniform(-3, 1.5) if rx[0] == 0 else 1.0 for _ in range(ncells) for rx in rxns]
+        # a reaction switched off (rate constant exactly 0) in some cells, e.g. photolysis at night
+        if rng.random() < 0.25:
+            ud = [r for r, rx in enumerate(rxns) if rx[0] == 0]
+            if ud:
+                r = rng.choice(ud)
+                for c in range(ncells):
+                    if rng.random() < 0.7:
+                        k[c * len(rxns) + r] = 0.0
+        # and a species absent (concentration exactly 0) in some cells
+        if rng.random() < 0.25:
+            sp = rng.randrange(ns)
+            for c in range(ncells):
+                if rng.random() < 0.7:
+                    y0[c * ns + sp] = 0.0
     if special:
         what = rng.choice(["nan_y", "inf_y", "neg_y", "huge_y", "nan_k", "inf_k", "neg_k", "T0", "huge_k"])
         i = rng.randrange(len(y0))
@@ -554,7 +585,7 @@ def gen_slv_cfg(rng, tier, purpose, n_quick, n_thorough):
         names, atol, w, rxns = rand_solver_mech(rng, conservative=(purpose != "c10" or rng.random() < 0.5),
                                                 with_atol=(purpose == "c14"))
         ns = len(names)
-        ncells = rng.choice([1, 1, 2, 3, 5])
+        ncells = rng.choice([1, 1, 2, 3, 5, 5, 9, 17])
         clamp = 0 if purpose == "c09" else 1
         pt = solver_problem_tokens(rng, ns, rxns, ncells, kind, special=(purpose == "c10"), clamp=clamp)
         if purpose in ("c12", "c14"):
@@ -593,7 +624,7 @@ def gen_slv_reuse(rng, tier):
         names, atol, w, rxns = rand_solver_mech(rng)
         ns = len(names)
         cfg = rand_config(rng, ns)
-        ncells = rng.choice([1, 2, 3, 5])
+        ncells = rng.choice([1, 2, 3, 5, 9])
         npb = rng.randrange(2, 7 if tier != "thorough" else 13)
         t = [kind, "reuse"] + solver_mech_tokens(names, atol, rxns) + cfg + [str(npb)]
         for i in range(npb):
